@@ -187,6 +187,61 @@ def antisense_world2(order):
     return w
 
 
+def antisense_novel_world(variant):
+    """antisense_world2 loci (an intron annotated on both strands, canonical for the left gene's strand in locus 0 and for the right
+    gene's... see there) plus reads of a NOVEL isoform per locus whose chain contains the shared intron and one unannotated
+    non-canonical intron, with polyA/polyT evidence agreeing with the shared intron's dinucleotides.  variant 0: known reads of
+    both genes present; 1: only the novel reads; 2: novel reads plus known reads of the gene whose strand disagrees"""
+    from vlib import worlds as W
+    w = antisense_world2(("l", "r") if variant == 0 else ())
+    reads = list(w["reads"])
+    loci = []
+    for li, base in enumerate((2000, 8000)):
+        A, B, C, D = [base + 1, base + 200], [base + 601, base + 800], [base + 1201, base + 1400], [base + 1801, base + 2000]
+        true_strand = "+" if li == 0 else "-"        # strand for which the shared intron B-C is canonical in the FASTA
+        if li == 0:
+            E = [base + 2401, base + 2600]
+            blocks = [A, B, C, E]
+            w["sites"].append(["chr1", C[1] + 1, E[0] - 1, "nc"])
+        else:
+            E = [base - 399, base - 200]
+            blocks = [E, A, B, C]
+            w["sites"].append(["chr1", E[1] + 1, A[0] - 1, "nc"])
+        for i in range(6):
+            reads.append(W.read_of("nov%d_%d" % (li, i), "chr1", blocks, strand=true_strand))
+        if variant == 2:
+            # known reads of the gene annotated on the other strand only
+            left_strand = "+" if li == 0 else "-"
+            if left_strand != true_strand:
+                reads.append(W.read_of("kl%d" % li, "chr1", [A, B, C], strand=left_strand))
+            else:
+                reads.append(W.read_of("kr%d" % li, "chr1", [B, C, D], strand="-" if left_strand == "+" else "+"))
+        loci.append(("antinovel%d" % li, "chr1", base - 500, true_strand, true_strand))
+    w["reads"] = reads
+    return w, loci
+
+
+def shared_intron_world(m_first, with_known):
+    """gene P (+, 4 exons) and gene M (-, 2 exons) overlap and share P's first intron, which the FASTA makes canonical for '+' only;
+       reads of a novel isoform use the shared intron plus one unannotated intron that is canonical on neither strand (annotated
+       donor, background acceptor) and carry a polyA tail: every piece of evidence says '+'.  m_first: M starts left of P (order in
+       which the annotation is iterated)"""
+    from vlib import worlds as W
+    b = 2000
+    P = [[b + 1, b + 200], [b + 501, b + 700], [b + 1001, b + 1200], [b + 1801, b + 2000]]
+    M = [[b - 99 if m_first else b + 101, b + 200], [b + 501, b + 650]]
+    w = W.base_world(1, 8000)
+    w["genes"].append({"id": "P", "chr": "chr1", "strand": "+", "transcripts": [{"id": "TP", "exons": P}]})
+    w["genes"].append({"id": "M", "chr": "chr1", "strand": "-", "transcripts": [{"id": "TM", "exons": M}]})
+    w["sites"] = [["chr1", P[i][1] + 1, P[i + 1][0] - 1, "+"] for i in range(3)]
+    reads = [W.read_of("nov_%d" % i, "chr1", [P[0], P[1], [b + 1401, b + 1600]], strand="+") for i in range(8)]
+    if with_known:
+        reads += [W.read_of("kp_%d" % i, "chr1", P, strand="+") for i in range(3)]
+        reads += [W.read_of("km_%d" % i, "chr1", M, strand="-") for i in range(3)]
+    w["reads"] = reads
+    return w
+
+
 def novel_world(swap=False):
     """intergenic novel loci: '+' sites with polyA reads, '-' sites with polyT reads, non-canonical sites with polyA / polyT,
        contradicting evidence ('+' sites with polyT head); the second chromosome carries loci at the SAME coordinates with the
@@ -223,11 +278,29 @@ def pipeline_case(args):
     extra = ["--check_canonical"]
     if kind == "anti":
         w = antisense_world2(param)
+    elif kind == "antinovel":
+        w, loci = antisense_novel_world(param[0])
+        extra += ["--report_canonical", param[1], "--model_construction_strategy", "all"]
+    elif kind == "shared":
+        w = None
     else:
         w, loci = novel_world(swap=param.endswith("/swap"))
         extra += ["--report_canonical", param.split("/")[0], "--model_construction_strategy", "all"]
-    paths = syn.materialise(w, d)
-    seqs = syn.genome_sequences(w)
+    if kind == "shared":
+        from props import c11
+        m_first, with_known, reflect, lvl = param
+        w = shared_intron_world(m_first, with_known)
+        seqs = syn.genome_sequences(w)
+        true_strand = "+"
+        if reflect:
+            w, seqs = c11.reflect_world(w, seqs)
+            true_strand = "-"
+        loci = [("shared-intron", "chr1", 0, true_strand, true_strand)]
+        extra += ["--report_canonical", lvl, "--model_construction_strategy", "all"]
+        paths = c11.write_world(w, seqs, d)
+    else:
+        paths = syn.materialise(w, d)
+        seqs = syn.genome_sequences(w)
     out = os.path.join(d, "out")
     rc = run.run_isoquant(run.base_argv(paths, out, extra=extra), paths["home"], os.path.join(d, "o.txt"))
     if rc != 0:
@@ -277,7 +350,7 @@ def pipeline_case(args):
             # strand of novel spliced transcripts vs evidence
             if loci and introns and not tid.startswith("T"):
                 for name, chrom_, base, kind_, tail in loci:
-                    if t["chr"] == chrom_ and ex[0][0] >= base and ex[-1][1] <= base + 3000:
+                    if t["chr"] == chrom_ and ex[0][0] >= base and ex[-1][1] <= base + (3000 if base else 10 ** 9):
                         site_strand = {"+": "+", "-": "-", "nc": "."}[kind_]
                         if site_strand != ".":
                             if t["strand"] != site_strand:
@@ -332,7 +405,8 @@ def run(ctx):
     ctx.note("L1 query-history search depth %d: %d states, %d transitions, %d model pairs" % (depth, states, transitions, nmodel))
     n = 3 if quick else 4
     orders = sorted(set(itertools.product("lr", repeat=n)) - {("l",) * n, ("r",) * n})
-    jobs = [("anti", o, ctx.scratch) for o in orders] + [("novel", lvl + sw, ctx.scratch) for lvl in ("auto", "only_canonical", "only_stranded", "all") for sw in ("", "/swap")]
+    jobs = [("anti", o, ctx.scratch) for o in orders] + [("antinovel", (v, lvl), ctx.scratch) for v in (0, 1, 2) for lvl in ("all", "auto")] + \
+        [("shared", (mf, wk, rf, lvl), ctx.scratch) for mf in (0, 1) for wk in (0, 1) for rf in (0, 1) for lvl in ("all", "auto")] + [("novel", lvl + sw, ctx.scratch) for lvl in ("auto", "only_canonical", "only_stranded", "all") for sw in ("", "/swap")]
     nchecked = 0
     for kind, param, nc, errs in core.pmap(pipeline_case, jobs):
         nchecked += nc
